@@ -57,6 +57,7 @@ func VH_C18_updown() {
 		qtype = "csv"
 		q = []byte("query,SNPs\nq0,\n")
 	}
+	vSchedExplore(vParam("DEV"))
 	w := &vCapture{}
 	var err error
 	if list {
